@@ -22,7 +22,8 @@ func (C12) Generate(rng *rand.Rand, tier string) []core.Case {
 	return genDbCases(rng, tier, []string{"mix", "mix", "range", "idx", "seq"}, 250, 15000, 50)
 }
 func (C12) Exec(ops []string, outs []string) { dbExecOps(ops, outs) }
-func (C12) Timeout() time.Duration          { return 60 * time.Second }
+func (C12) Timeout() time.Duration           { return 60 * time.Second }
+
 // Oracle: an independent, tiny map specification (key -> version, modification count) kept in Go:
 // version ids strictly increase, conditional operations take effect iff the expectation matches,
 // delete of an absent key reports not-found, range deletes remove exactly the range, and exact
@@ -200,7 +201,7 @@ func (C13) Generate(rng *rand.Rand, tier string) []core.Case {
 	return genDbCases(rng, tier, []string{"seq", "seq", "mix", "internal", "idx", "range"}, 250, 15000, 40)
 }
 func (C13) Exec(ops []string, outs []string) { dbExecOps(ops, outs) }
-func (C13) Timeout() time.Duration          { return 60 * time.Second }
+func (C13) Timeout() time.Duration           { return 60 * time.Second }
 func (C13) Oracle(ops, impl, model []string) string {
 	for i, o := range ops {
 		if i >= len(impl) {
@@ -254,7 +255,7 @@ func (C15) Generate(rng *rand.Rand, tier string) []core.Case {
 	return cases
 }
 func (C15) Exec(ops []string, outs []string) { dbExecOps(ops, outs) }
-func (C15) Timeout() time.Duration          { return 60 * time.Second }
+func (C15) Timeout() time.Duration           { return 60 * time.Second }
 
 type idxEntry struct{ sk, pk string }
 
@@ -442,13 +443,13 @@ func (C16) Generate(rng *rand.Rand, tier string) []core.Case {
 	return genDbCases(rng, tier, []string{"seq"}, 250, 12000, 45)
 }
 func (C16) Exec(ops []string, outs []string) { dbExecOps(ops, outs) }
-func (C16) Timeout() time.Duration          { return 60 * time.Second }
+func (C16) Timeout() time.Duration           { return 60 * time.Second }
 
 var seqSuffixRe = regexp.MustCompile(`^(-\d{20})+$`)
 
 func (C16) Oracle(ops, impl, model []string) string {
-	live := map[string]bool{}      // keys currently in the store (user keys)
-	maxGen := map[string]string{}  // per prefix: greatest generated key so far
+	live := map[string]bool{}     // keys currently in the store (user keys)
+	maxGen := map[string]string{} // per prefix: greatest generated key so far
 	for i, o := range ops {
 		if i >= len(impl) {
 			break
@@ -590,7 +591,7 @@ func (C17) Generate(rng *rand.Rand, tier string) []core.Case {
 	return cases
 }
 func (C17) Exec(ops []string, outs []string) { dbExecOps(ops, outs) }
-func (C17) Timeout() time.Duration          { return 60 * time.Second }
+func (C17) Timeout() time.Duration           { return 60 * time.Second }
 
 // Oracle: what each committed request must announce is recomputed in Go from the request and its
 // response; every read must return exactly the batches with offset >= start, ascending.
